@@ -18,6 +18,7 @@ import (
 	"path/filepath"
 	"sort"
 	"strings"
+	"sync"
 	"sync/atomic"
 	"testing"
 	"time"
@@ -37,6 +38,7 @@ type dOp struct {
 	Mode  string     `json:"mode,omitempty"` // fail: none | all | hours
 	Dirs  [][]string `json:"dirs,omitempty"` // hours: directories (YYYY MM DD HH) whose writes fail
 	Old   bool       `json:"old,omitempty"`
+	SlowMS int       `json:"slow_ms,omitempty"` // fail: every failing Write first takes this long
 	Regs  []dReg     `json:"regs,omitempty"` // shutdown: the registration table
 	Guarded bool     `json:"guarded,omitempty"` // shutdown: the purge is skipped when HasFlushFailure()
 }
@@ -62,23 +64,41 @@ type dObs struct {
 	WalEntries int      `json:"wal_entries"`
 	Failed     bool     `json:"failed"`
 	Rejected   []int    `json:"rejected,omitempty"`
-	Order      []string `json:"order,omitempty"` // shutdown: names in execution order
+	Order      []string `json:"order,omitempty"` // shutdown: names in execution order (by start)
+	Events     []string `json:"events,omitempty"` // shutdown: "+name" start / "-name" return of every hook and Close
 	Stats      map[string]int64 `json:"stats,omitempty"`
+}
+
+type verifShutdownLog struct {
+	mu     sync.Mutex
+	order  []string
+	events []string
+}
+
+func (l *verifShutdownLog) run(name string, fn func() error) error {
+	l.mu.Lock()
+	l.order = append(l.order, name)
+	l.events = append(l.events, "+"+name)
+	l.mu.Unlock()
+	var err error
+	if fn != nil {
+		err = fn()
+	} else {
+		time.Sleep(time.Millisecond)
+	}
+	l.mu.Lock()
+	l.events = append(l.events, "-"+name)
+	l.mu.Unlock()
+	return err
 }
 
 type verifRecorder struct {
 	name string
-	rec  *[]string
+	log  *verifShutdownLog
 	fn   func() error
 }
 
-func (r *verifRecorder) Close() error {
-	*r.rec = append(*r.rec, r.name)
-	if r.fn != nil {
-		return r.fn()
-	}
-	return nil
-}
+func (r *verifRecorder) Close() error { return r.log.run(r.name, r.fn) }
 
 func TestVerifDurable(t *testing.T) {
 	raw, err := os.ReadFile(os.Getenv("VERIF_CASES"))
@@ -101,8 +121,12 @@ func TestVerifDurable(t *testing.T) {
 		var failAll atomic.Bool
 		var failDirs atomic.Value // []string
 		failDirs.Store([]string{})
+		var slowMS atomic.Int64
 		st.fail = func(path string) bool {
 			if failAll.Load() {
+				if d := slowMS.Load(); d > 0 {
+					time.Sleep(time.Duration(d) * time.Millisecond) // a slow, then failing storage
+				}
 				return true
 			}
 			for _, d := range failDirs.Load().([]string) {
@@ -188,6 +212,7 @@ func TestVerifDurable(t *testing.T) {
 				settle()
 			case "fail":
 				failAll.Store(op.Mode == "all")
+				slowMS.Store(int64(op.SlowMS))
 				dirs := []string{}
 				if op.Mode == "hours" {
 					for _, d := range op.Dirs {
@@ -266,7 +291,7 @@ func TestVerifDurable(t *testing.T) {
 				// the REAL coordinator with the generated registration table; the three
 				// registrations that matter do the real thing, the others only record
 				coord := shutdown.New(30*time.Second, zerolog.Nop())
-				order := []string{}
+				slog := &verifShutdownLog{}
 				for _, r := range op.Regs {
 					name := r.Name
 					var fn func() error
@@ -295,19 +320,13 @@ func TestVerifDurable(t *testing.T) {
 					}
 					if r.Kind == "RHook" {
 						f := fn
-						coord.RegisterHook(name, func(ctx context.Context) error {
-							order = append(order, name)
-							if f != nil {
-								return f()
-							}
-							return nil
-						}, r.Prio)
+						coord.RegisterHook(name, func(ctx context.Context) error { return slog.run(name, f) }, r.Prio)
 					} else {
-						coord.Register(name, &verifRecorder{name: name, rec: &order, fn: fn}, r.Prio)
+						coord.Register(name, &verifRecorder{name: name, log: slog, fn: fn}, r.Prio)
 					}
 				}
 				_ = coord.Shutdown()
-				o.Order = order
+				o.Order, o.Events = slog.order, slog.events
 			default:
 				t.Fatalf("unknown op %q", op.Op)
 			}
